@@ -18,10 +18,11 @@ CASE_TIMEOUT = 30
 
 RULE = ("value cases = (operation in {deepcopy/copy, splitUniform/NonUniform/Equal/UnEqual with halos and relative "
         "coordinates, flattenRanks, unflattenRanks, swapRanks, fiber+k, fiber*k, fiber+fiber, fiber*fiber, "
-        "tensor.updateCoords, tensor.updatePayloads}, fiber-level on unowned fibers or tensor-level on tensors of 1-3 "
+        "tensor.updateCoords, tensor.updatePayloads, root.copy(preserve_owner=False), Tensor.fromFiber(another tensor's root "
+        "or sub-fiber) on operands with stored-but-empty sub-fibers}, fiber-level on unowned fibers or tensor-level on tensors of 1-3 "
         "ranks, operand trees of depth 1-3 with explicit defaults and empty sub-fibers); observation = identity "
-        "snapshots (structure, id() numbers of every Fiber/Payload/RankAttrs/default/Rank object, rank lists) of the "
-        "operands before and after, of the result, of the operands after mutating every box/fiber/rank list of the "
+        "snapshots (structure, id() numbers of every Fiber/Payload/RankAttrs/default/Rank object, rank lists, owner reported by every fiber) of the "
+        "and the owner each fiber reports) of the operands before and after, of the result, of the operands after mutating every box/fiber/rank list of the "
         "result, of the result before/after mutating the operands, + flag(attribute values of the operands kept). "
         "read-only cases = two tensors of 1-3 ranks and 1-6 observers from {getPayload(point), | iteration, ^ "
         "iteration, ==, iterUncompressed, external: isEmpty/countValues/shape/len/iteration/&/-/str/repr/format/YAML dump/Format "
@@ -95,6 +96,10 @@ def op_coq(o):
         return "(VUpdCoords %s)" % L.z(o[1])
     if k == "updpay":
         return "(VUpdPayloads %s)" % L.z(o[1])
+    if k == "copynoowner":
+        return "VCopyNoOwner"
+    if k == "fromfiber":
+        return "(VFromFiber %s)" % L.opt(o[1], L.nat)
     raise ValueError(k)
 
 
@@ -156,7 +161,32 @@ def gen_split(rng, owned):
 
 
 VKINDS = ["copy", "split", "split", "flatten", "unflatten", "unflatten", "swap", "arith", "arith",
-          "updcoords", "updpay"]
+          "updcoords", "updpay", "copynoowner", "fromfiber", "fromfiber"]
+
+
+def add_empties(rng, t, depth):
+    """replace some interior children by stored-but-empty sub-fibers: zero-length, all explicit
+    defaults, or (depth permitting) a fiber of empty fibers"""
+    if depth <= 1:
+        return t
+    out = []
+    for c, sub in t:
+        r = rng.random()
+        if r < 0.2:
+            sub = []
+        elif r < 0.4:
+            if depth == 2:
+                sub = [[[k], 0] for k in sorted(rng.sample(range(6), rng.randint(1, 2)))]
+            else:
+                sub = [[[k], rng.choice([[], [[[1], 0]]])] for k in sorted(rng.sample(range(6), rng.randint(1, 2)))]
+        else:
+            sub = add_empties(rng, sub, depth - 1)
+        out.append([c, sub])
+    if depth >= 2 and len(out) < 2 and rng.random() < 0.7:
+        cs = [c[0] for c, _ in out]
+        c = (max(cs) + 1) if cs else 0
+        out.append([[c], []])
+    return out
 
 
 def gen_v(rng, kind=None):
@@ -203,6 +233,16 @@ def gen_v(rng, kind=None):
     if kind == "updpay":
         n = rng.randint(1, 3)
         return {"kind": "V", "n": n, "op": ["updpay", rng.choice([1, 2, -1, 3])], "ops": [gen_tree(rng, n)]}
+    if kind == "copynoowner":
+        n = rng.randint(1, 3)
+        return {"kind": "V", "n": n, "op": ["copynoowner"], "ops": [add_empties(rng, gen_tree(rng, n, 6), n)]}
+    if kind == "fromfiber":
+        n = rng.randint(1, 3)
+        t = add_empties(rng, gen_tree(rng, n, 6), n)
+        sub = None
+        if n >= 2 and t and rng.random() < 0.4:
+            sub = rng.randrange(len(t))
+        return {"kind": "V", "n": n, "op": ["fromfiber", sub], "ops": [t]}
     raise ValueError(kind)
 
 
@@ -301,6 +341,14 @@ def _apply_op(o, n, xs):
     if k == "updpay":
         kk = o[1]
         return x.updatePayloads(lambda i, c, p: p + kk, depth=n - 1)
+    if k == "copynoowner":
+        return x.getRoot().copy(preserve_owner=False)
+    if k == "fromfiber":
+        import c10_util as X
+        from fibertree import Tensor
+        if o[1] is None:
+            return Tensor.fromFiber(rank_ids=X.RANKS[:n], fiber=x.getRoot(), shape=[X.SHAPE] * n)
+        return Tensor.fromFiber(rank_ids=X.RANKS[1:n], fiber=x.getRoot().payloads[o[1]], shape=[X.SHAPE] * (n - 1))
     raise ValueError(k)
 
 
@@ -456,7 +504,7 @@ def repro_py(case):
     return ("import sys; sys.path.insert(0,'/verif/harness'); sys.path.insert(0,'/verif/harness/props')\n"
             "import c10\ncase = %r\nobs = c10.run_impl(case)\nprint(obs)\n"
             "# value cases: obs = [operands before, operands after, result, operands after mutating the result,\n"
-            "#   result after that, result after mutating the operands, attrs flag]; each snapshot = [structure, object numbers, rank lists]\n"
+            "#   result after that, result after mutating the operands, attrs flag]; each snapshot = [structure, object numbers, rank lists, owner codes]\n"
             % (case,))
 
 
